@@ -148,6 +148,9 @@ func solveOne(o *Obligation, opt SolveOpts, idx int) {
 	if opt.All && !o.Cover {
 		// thorough tier: every solver is asked. After the first conclusive answer the others get a grace period (three
 		// times what the first needed, at least 10 s) to contradict it; a solver still silent then counts as no answer.
+		// (the differently seeded configurations of the retry round take part from the start: a proof that depends on
+		// instantiation order must not be left to the three default searches in the tier that is meant to be the deeper one)
+		solvers := retrySolvers
 		var rs []solveResult
 		ctxAll, cancelAll := context.WithCancel(context.Background())
 		chAll := make(chan solveResult, len(solvers))
